@@ -384,7 +384,11 @@ def exit_obligations(V, outs, entry, is_gen):
     for o in outs:
         st = o.st
         if o.kind in (BREAK, CONTINUE):
-            raise Unsupported('break/continue outside loop')
+            if c.region is None:
+                raise Unsupported('break/continue outside loop')
+            # block contract on (part of) a loop body: leaving the block by continue/break is a normal exit of the block
+            o = Outcome(NORMAL, o.st)
+            st = o.st
         if o.kind in (NORMAL, RETURN):
             if not V.feasible(st.pc):
                 continue
